@@ -570,7 +570,7 @@ fn main() {
          combinations whose event was accounted for at the collector",
     );
     let seed = args.seed;
-    let n_events = args.get_u64("events", if args.thorough() { 700 } else { 120 });
+    let n_events = args.get_u64("events", if args.thorough() { 800 } else { 200 });
 
     if let Some(path) = &args.replay {
         let case = load_replay(path);
@@ -583,7 +583,7 @@ fn main() {
     }
 
     // 8 subsets x 3 transports x gzip on/off = 48 cases per round
-    let n = args.n(96, 480);
+    let n = args.n(192, 7200);
     par_cases(&mut r, &args, n, |i, r| {
         let sc = generate(seed, i, n_events);
         run(r, &sc, seed);
